@@ -48,6 +48,10 @@ impl Voted {
     pub open spec fn view(&self) -> Set<PeerId> { self.g@ }
     #[verifier::external_body]
     pub fn insert(&mut self, p: PeerId) -> (b: bool) ensures final(self)@ == old(self)@.insert(p), b == !old(self)@.contains(p) { unimplemented!() }
+    #[verifier::external_body]
+    pub fn contains(&self, p: &PeerId) -> (b: bool) ensures b == self@.contains(*p) { unimplemented!() }
+    #[verifier::external_body]
+    pub fn remove(&mut self, p: &PeerId) -> (b: bool) ensures final(self)@ == old(self)@.remove(*p), b == old(self)@.contains(*p) { unimplemented!() }
 }
 // E8: `peers.into_iter().collect()`: the voters as a list
 #[verifier::external_body]
@@ -65,6 +69,14 @@ impl HashPeers {
     pub fn get(&self, k: &Hash) -> (r: Option<&Vec<PeerId>>)
         ensures r.is_some() == self@.contains_key(*k), r.is_some() ==> r.unwrap()@ == self@[*k]
     { unimplemented!() }
+    #[verifier::external_body]
+    pub fn get_mut(&mut self, k: &Hash) -> (r: Option<&mut Vec<PeerId>>)
+        ensures
+            !old(self)@.contains_key(*k) ==> r.is_none() && final(self)@ == old(self)@,
+            old(self)@.contains_key(*k) ==> r.is_some() && r.unwrap()@ == old(self)@[*k] && final(self)@ == old(self)@.insert(*k, final(r.unwrap())@),
+    { unimplemented!() }
+    #[verifier::external_body]
+    pub fn contains_key(&self, k: &Hash) -> (b: bool) ensures b == self@.contains_key(*k) { unimplemented!() }
     #[verifier::external_body]
     pub fn insert(&mut self, k: Hash, v: Vec<PeerId>) -> (o: Option<Vec<PeerId>>)
         ensures final(self)@ == old(self)@.insert(k, v@)
@@ -123,6 +135,8 @@ impl Pools {
             *r == (if old(self)@.contains_key(k) { old(self)@[k] } else { PeerPool::Candidates((Voted { g: Ghost(Set::empty()) }, HashPeers { g: Ghost(Map::empty()) })) }),
             final(self)@ == old(self)@.insert(k, *final(r)),
     { unimplemented!() }
+    #[verifier::external_body]
+    pub fn contains_key(&self, k: &u64) -> (b: bool) ensures b == self@.contains_key(*k) { unimplemented!() }
     #[verifier::external_body]
     pub fn remove(&mut self, k: &u64) -> (o: Option<PeerPool>)
         ensures final(self)@ == old(self)@.remove(*k), o.is_some() == old(self)@.contains_key(*k), o.is_some() ==> o.unwrap() == old(self)@[*k]
